@@ -773,7 +773,7 @@ def write_evidence(prop, tier, seed, per_group, n_ob, n_ok, nviol, known, propme
             'undecided_groups': [p['group'] for p in per_group if p['status'] == 'undecided'],
             'groups': per_group,
             'samples': samples[:40],
-            'explanation': pm.get('explanation', ''),
+            'explanation': pm.get('text', '') + ' | unbounded proof groups in this run: %d, bounded stand-in groups: %d' % (len(proved), len(bounded)),
         },
         'assumptions': trusted + list(pm.get('unchecked', [])),
         'wall_s': round(wall, 2),
